@@ -26,7 +26,7 @@ KNOWN = os.path.join(ROOT, "known_findings.json")
 
 # property -> list of (world binary, share of the run budget); budgets = number of simulated runs
 PROPS = {
-    "C01": dict(worlds=[("arena", 1.0)], quick=60_000, thorough=3_000_000),
+    "C01": dict(worlds=[("arena", 0.8), ("coll", 0.2)], quick=60_000, thorough=3_000_000),
     "C02": dict(worlds=[("arena", 1.0)], quick=50_000, thorough=2_500_000),
     "C03": dict(worlds=[("arena", 1.0)], quick=50_000, thorough=2_500_000),
     "C05": dict(worlds=[("arena", 1.0)], quick=60_000, thorough=3_000_000),
